@@ -23,6 +23,12 @@
 (*                 <<"EOC", 0>>  the empty line that ends a chunked body                                   *)
 (*   other         <<"EOF", 0>>  the peer closes            <<"FLOOD", 0>> more octets than any cap allows *)
 (*                 <<"JUNK", i>> octets that are no HTTP at all                                            *)
+(*   BIG lexemes   a lexeme is a few octets unless its argument says otherwise: <<"HDR", 10 + w>>,         *)
+(*                 <<"TRL", 10 + w>>, <<"LAST", 10 + w>> and <<"CSZ", 100*(10 + w) + n>> are a header      *)
+(*                 field, a trailer field, a last-chunk and a chunk-size line (for n data octets) whose    *)
+(*                 value / chunk extension is so long that the image of the lexeme is w QUARTERS of the    *)
+(*                 cap it counts against (w = 3: fits; w = 5: alone larger than the cap) - perfectly       *)
+(*                 well-formed HTTP that carries almost no payload                                         *)
 (*                                                                                                        *)
 (* AbsOut(side, rm, s) is the sequence of OUTCOMES the application must see, whatever the segmentation:    *)
 (*   [t |-> "msg", start, hdrs, trls, body]   handed over: start line, header lexemes, body data lexemes   *)
@@ -32,6 +38,10 @@
 (*                       nothing is demanded for what follows it                                                   *)
 (*   [t |-> "reject"]    invalid length information / over the cap: not handed over, nothing after it is,  *)
 (*                       and the endpoint signals an error (status >= 400, a close, a framing exception)   *)
+(*   [t |-> "over"]      (server) the message is larger than the buffer cap: the endpoint signals an error (a      *)
+(*                       close); nothing else is demanded.  The server does not buffer the segment that would      *)
+(*                       exceed the cap - it drops it and asks the transport to close - so it is BOUNDED whatever  *)
+(*                       it does with segments that still arrive before the close is carried out                   *)
 (*   [t |-> "stall"]     a size that is a valid number but can never be satisfied within the caps: not     *)
 (*                       handed over, nothing after it; rejecting at once or waiting for the cap are both  *)
 (*                       fine                                                                              *)
@@ -44,6 +54,19 @@
 (*     response: close-delimited (RFC 9112 6.3 rule 4)                                                     *)
 (*   - trailer fields may be dropped or merged into the header fields                                      *)
 (*   - a wrong CRLF after chunk data (CENDX) is malformed but not "length information": outcome "any"      *)
+(*   - BOUNDED ("can never make the endpoint buffer beyond its configured caps").  Both endpoints are      *)
+(*     store-and-forward framers: a message is handed over only after all its octets sit in the receive    *)
+(*     buffer (server: SessionInfo::buffer, client: the raw accumulation buffer of executeRequest).  Hence  *)
+(*     EVERY octet of the message image counts against the cap, whatever it encodes - start line, header   *)
+(*     fields, chunk-size lines and their extensions, chunk data, CRLFs, the trailer section - and a        *)
+(*     message whose image is larger than the cap can only be handed over by buffering beyond the cap: it  *)
+(*     must be answered with an error / a close and never handed over (outcome "reject"; on the server,    *)
+(*     which has a path that DROPS input instead of buffering it, only the error is demanded: "over").     *)
+(*     A message that                                                                                      *)
+(*     stays within every cap is an ordinary valid message (outcome "msg").  Caps: the client has ONE cap  *)
+(*     on the whole response (interim responses already discarded do not count); the server has a cap on   *)
+(*     the head (request line + header fields, MAX_HEADER_SIZE) and a cap on everything buffered and not   *)
+(*     yet dispatched (MAX_BUFFER_SIZE; the head is at most 1/16 of it and is neglected there).            *)
 EXTENDS Naturals, Sequences, FiniteSets
 
 Kind(x) == x[1]
@@ -57,9 +80,25 @@ ClKinds == {"CL", "CLL", "CLX", "CLBIG"}
 HName(x) == CASE Kind(x) \in ClKinds -> "content-length"
               [] Kind(x) = "TE" -> "transfer-encoding"
               [] Kind(x) = "CONN" -> "connection"
-              [] Kind(x) = "HDR" -> (IF Arg(x) = 1 THEN "x-a" ELSE "x-b")
-              [] Kind(x) = "TRL" -> (IF Arg(x) = 1 THEN "t" ELSE "u")
+              [] Kind(x) = "HDR" -> (IF Arg(x) = 1 THEN "x-a" ELSE IF Arg(x) = 2 THEN "x-b" ELSE "x-big")
+              [] Kind(x) = "TRL" -> (IF Arg(x) = 1 THEN "t" ELSE IF Arg(x) = 2 THEN "u" ELSE "t-big")
               [] OTHER -> "?"
+
+\* ------------------------------------------------------------------ sizes and caps (in quarters of a cap)
+BigBase == 10
+CapQ == 4
+Wt(x) == CASE Kind(x) \in {"HDR", "TRL", "LAST"} /\ Arg(x) >= BigBase -> Arg(x) - BigBase
+           [] Kind(x) = "CSZ" /\ Arg(x) \div 100 >= BigBase -> (Arg(x) \div 100) - BigBase
+           [] OTHER -> 0
+RECURSIVE SumWt(_, _, _)
+SumWt(s, a, b) == IF a > b THEN 0 ELSE Wt(s[a]) + SumWt(s, a + 1, b)
+\* the message that starts at lexeme i, whose header section ends with lexeme he (0: not yet) and whose last lexeme so
+\* far is `last`, is larger than a cap of the receiving side
+HeadOver(s, i, he) == SumWt(s, i, he) > CapQ
+OverCap(side, s, i, he, last) ==
+    IF side = "resp" THEN SumWt(s, i, last) > CapQ
+    ELSE IF he = 0 THEN FALSE
+    ELSE HeadOver(s, i, he) \/ SumWt(s, he + 1, last) > CapQ
 
 FinalChunked == {1, 2, 5}      \* TE variants whose final coding is chunked
 MentionsChunked == {1, 2, 3, 5}
@@ -69,6 +108,7 @@ Dummy == <<"-", 0>>
 Out(t, st, H, T, b) == [t |-> t, start |-> st, hdrs |-> H, trls |-> T, body |-> b]
 Reject == Out("reject", Dummy, {}, {}, <<>>)
 Stall == Out("stall", Dummy, {}, {}, <<>>)
+OverOut == Out("over", Dummy, {}, {}, <<>>)
 AnyOut == Out("any", Dummy, {}, {}, <<>>)
 Msg(st, H, T, b) == Out("msg", st, H, T, b)
 
@@ -168,11 +208,17 @@ Parse(side, rm, s, lim, i, acc) ==
     IF i > lim \/ Kind(s[i]) = "EOF" THEN acc
     ELSE IF Kind(s[i]) # StartKind(side) THEN Append(acc, AnyOut)
     ELSE LET he == HdrEnd(s, lim, i + 1) IN
-         IF he = 0 THEN (IF \E j \in (i + 1)..lim : Kind(s[j]) = "FLOOD" THEN Append(acc, Reject) ELSE acc)
+         IF he = 0 THEN (IF (\E j \in (i + 1)..lim : Kind(s[j]) = "FLOOD") \/ OverCap(side, s, i, 0, lim)
+                         THEN Append(acc, Reject) ELSE acc)
          ELSE LET H == SubSeq(s, i + 1, he - 1) IN
               IF \E k \in DOMAIN H : Kind(H[k]) = "FLOOD" THEN Append(acc, Reject)
               ELSE IF \E k \in DOMAIN H : Kind(H[k]) \notin HdrKinds THEN Append(acc, AnyOut)
-              ELSE LET b == BodyOf(side, rm, s, lim, s[i], H, he + 1) IN
+              ELSE IF HeadOver(s, i, he) THEN Append(acc, Reject)
+              ELSE LET b0 == BodyOf(side, rm, s, lim, s[i], H, he + 1)
+                       \* a complete message larger than the cap, an incomplete one that already is: over the cap
+                       over == \/ b0.r = "done" /\ OverCap(side, s, i, he, b0.next - 1)
+                               \/ b0.r = "short" /\ OverCap(side, s, i, he, lim)
+                       b == IF over THEN Res(IF side = "req" THEN "over" ELSE "reject", b0.next, <<>>, {}) ELSE b0 IN
                    CASE b.r = "interim" -> Parse(side, rm, s, lim, he + 1, acc)
                      [] b.r = "done" -> IF Framing(side, rm, s[i], H).opt THEN Append(acc, Out("msgopt", s[i], RangeOf(H), b.trls, b.body))
                                         ELSE IF side = "resp" THEN Append(acc, Msg(s[i], RangeOf(H), b.trls, b.body))
@@ -180,6 +226,7 @@ Parse(side, rm, s, lim, i, acc) ==
                      [] b.r = "short" -> acc
                      [] b.r = "reject" -> Append(acc, Reject)
                      [] b.r = "stall" -> Append(acc, Stall)
+                     [] b.r = "over" -> Append(acc, OverOut)
                      [] OTHER -> Append(acc, AnyOut)
 
 AbsOut(side, rm, s) == Parse(side, rm, s, Len(s), 1, <<>>)
@@ -188,7 +235,7 @@ AbsOut(side, rm, s) == Parse(side, rm, s, Len(s), 1, <<>>)
 \* the header lexemes the application may report for a handed-over message: all header fields, optionally trailers
 HdrsOk(o, seen) == o.hdrs \subseteq seen /\ seen \subseteq (o.hdrs \cup o.trls)
 NamesOf(S) == {HName(x) : x \in S}
-IsTerminal(o) == o.t \in {"reject", "stall", "any", "msgopt"}
+IsTerminal(o) == o.t \in {"reject", "stall", "any", "msgopt", "over"}
 MsgsOf(E) == SelectSeq(E, LAMBDA o : o.t = "msg")
 LastT(E) == IF E = <<>> THEN "msg" ELSE E[Len(E)].t
 ==============================================================================
